@@ -131,7 +131,16 @@ fn run_font_after(out: &mut Out, case: &str, cls: &str, carrier: &str, f: &BitFo
             let ext = match carrier { "xbin" => "xb", x => x };
             let size = if carrier == "adf" { (80, 1) } else { (variant as i32 % 3 + 1, 1) };
             let fonts: Vec<(usize, &BitFont)> = prior.map(|p| (0, p)).into_iter().chain([(0, f)]).collect();
-            let buf = picture(size, &fonts, carrier != "xbin" || variant % 4 < 2);
+            let mut buf = picture(size, &fonts, carrier != "xbin" || variant % 4 < 2);
+            // the container around the font: formats that end with (or place the font next to) the palette get palettes whose last
+            // 6-bit value is also a marker byte (0x1A = DOS end of file, 0x00, 0x3F)
+            // (cycled by a counter of its own: `variant` is correlated with the carrier)
+            static PAL_CLASS: std::sync::atomic::AtomicU64 = std::sync::atomic::AtomicU64::new(0);
+            match PAL_CLASS.fetch_add(1, std::sync::atomic::Ordering::Relaxed) % 5 {
+                3 => buf.palette.set_color(15, icy_engine::Color::new(105, 105, 105)),       // 6-bit 26 = 0x1A
+                4 => buf.palette.set_color(15, icy_engine::Color::new(0, 0, 0)),
+                _ => {}
+            }
             through(|| buf.to_bytes(ext, &opts).map(|b| { *cell.borrow_mut() = b.clone(); bytes_value(&b) }).map_err(|e| e.to_string()),
                     || Buffer::from_bytes(Path::new(&format!("case.{ext}")), true, &cell.borrow()).map(|b| b.get_font(0).cloned()).map_err(|e| e.to_string()))
         }
@@ -423,7 +432,7 @@ pub fn c17(a: &Args) {
         let fonts: Vec<(&str, BitFont)> = vec![
             ("blank8", BitFont::create_8("blank8", 8, 8, &vec![0u8; 256 * 8])), ("blank14", BitFont::create_8("blank14", 8, 14, &vec![0u8; 256 * 14])),
             ("blank16", BitFont::create_8("blank16", 8, 16, &vec![0u8; 256 * 16])), ("rand8", rand8), ("rand16", rand16), ("zero-prefixed16", zp16),
-            ("default", BitFont::default()), ("edited-default", edited)];
+            ("default", BitFont::default()), ("edited-default", edited), ("edited-default-stale", { let mut e = BitFont::default(); if let Some(g) = e.get_glyph_mut('B') { g.data[3] ^= 0x3C; } e })];
         for (pn, p) in &fonts {
             for (fname, f) in &fonts {
                 if pn == fname { continue; }
